@@ -33,6 +33,7 @@ type histMsg struct {
 	Expect   []string `json:"expected_records"`
 	Unknown  []uint16 `json:"expected_unknown_template_ids"`
 	Note     string   `json:"note"`
+	CutShort bool     `json:"datagram_cut_short,omitempty"` // the datagram ends inside a template record: no message is required for it
 }
 
 type histCase struct {
@@ -270,7 +271,41 @@ func genHistory(g *mon.RNG, proto string, snap []wire.Elem, pair *[2]keyT) *hist
 		addr, id := pick()
 		m := histMsg{Exporter: mon.Hex(addr)}
 		var sets []wire.Set
-		switch g.Intn(6) {
+		kindNo := g.Intn(7)
+		if kindNo == 6 && (pair != nil || len(ids) < 2) {
+			kindNo = 0
+		}
+		var cutAt int
+		switch kindNo {
+		case 6:
+			// a template refresh larger than the receive buffer: one template set with two or three templates, the
+			// datagram ends inside the last record. The templates that arrived completely were announced.
+			oo := o
+			oo.Options = false
+			k := 2 + g.Intn(2)
+			if k > len(ids) {
+				k = len(ids)
+			}
+			perm := g.Perm(len(ids))
+			var ts []*wire.Template
+			for j := 0; j < k; j++ {
+				ts = append(ts, wire.GenTemplate(g, ids[perm[j]], oo))
+			}
+			full, _ := wire.EncodeFlow(proto, []uint32{uint32(mi), g.U32(), g.U32(), g.U32()}, []wire.Set{{Kind: wire.SetTemplate, Templates: ts}})
+			pre, _ := wire.EncodeFlow(proto, []uint32{uint32(mi), 0, 0, 0}, []wire.Set{{Kind: wire.SetTemplate, Templates: ts[:k-1]}})
+			if len(full)-len(pre) >= 3 {
+				cutAt = len(pre) + 1 + g.Intn(len(full)-len(pre)-2)
+				for j := 0; j < k-1; j++ {
+					ref[akey(addr, ts[j].ID)] = ts[j]
+				}
+				m.Note = fmt.Sprintf("a template set of %d templates cut short inside the last one (%d of %d octets)", k, cutAt, len(full))
+				m.CutShort = true
+				m.Dgram = mon.Hex(full[:cutAt])
+				c.Msgs = append(c.Msgs, m)
+				continue
+			}
+			m.Note = "announce"
+			sets = append(sets, announce(addr, id))
 		case 0, 1:
 			m.Note = "announce"
 			sets = append(sets, announce(addr, id))
@@ -398,6 +433,12 @@ func runHistoryRange(c *histCase, from, to int, in, out string) (kind, what stri
 			}
 		}
 		c.At, c.Got, c.Err = i, recs, errText
+		if m.CutShort {
+			if len(recs) > 0 {
+				return "records-from-a-cut-template-set", fmt.Sprintf("message %d (%s): %d records decoded from a datagram that carries only templates", i, m.Note, len(recs))
+			}
+			continue
+		}
 		if isNil {
 			return "message-lost", fmt.Sprintf("message %d (%s): no message returned: %s", i, m.Note, errText)
 		}
@@ -549,7 +590,7 @@ func histMain(args mon.Args) {
 			run.HarnessError("canary: comparator accepted a corrupted expectation")
 		}
 	}
-	run.SetRule("seeded histories of 5-200 messages over 2-50 exporters (4-byte, IPv4-mapped, IPv6) and a pool of 2-5 template ids: announcements, re-announcements with a different definition, data, announce+data and data/redefinition/data inside one message; a reference map (address octets, id) → latest definition, updated in history order, gives the expected records and the expected 'unknown template' reports of every message; IPFIX peer lookups (IRPC.Get directly and through a real net/rpc server on loopback) must return exactly the reference entry or 'not available'; a peer-client phase runs the real ipfix.RPCServer (port 8085) and fetches hundreds of templates through ONE ipfix.RPCClient, keeping each answer as the RPC loop does: every kept answer must stay equal to its own key's entry. 60-1500 further histories are cut at 1-3 points and every part runs in a process of its own that loads the cache file its predecessor saved (real restarts: per-process state such as a random hash seed differs between the lives). A concurrent phase lets 16 goroutines look up 64 announced keys (8 in one shard) 40 000 times without any announcement: every lookup must see its own key's definition; then 16 goroutines, each the only announcer of its own key, re-announce and decode 1500 times (read-your-own-announcement). Adversarial histories use key pairs with equal FNV-1-32 of address‖id (found by birthday search: same id on two exporters, different ids, IPv4/IPv6/mapped forms) and 20 structurally aliasing pairs (decimal concatenation without separator, addresses differing in one part only or with permuted octets, ids equal modulo 256 / xor 0x8000 / byte-swapped). distinct = (protocol, colliding, sizes, first datagram); non-trivial = at least one record expected")
+	run.SetRule("seeded histories of 5-200 messages over 2-50 exporters (4-byte, IPv4-mapped, IPv6) and a pool of 2-5 template ids: announcements, re-announcements with a different definition, data, announce+data, data/redefinition/data inside one message, and template refreshes cut short inside their last template (the complete ones count as announced); a reference map (address octets, id) → latest definition, updated in history order, gives the expected records and the expected 'unknown template' reports of every message; IPFIX peer lookups (IRPC.Get directly and through a real net/rpc server on loopback) must return exactly the reference entry or 'not available'; a peer-client phase runs the real ipfix.RPCServer (port 8085) and fetches hundreds of templates through ONE ipfix.RPCClient, keeping each answer as the RPC loop does: every kept answer must stay equal to its own key's entry. 60-1500 further histories are cut at 1-3 points and every part runs in a process of its own that loads the cache file its predecessor saved (real restarts: per-process state such as a random hash seed differs between the lives). A concurrent phase lets 16 goroutines look up 64 announced keys (8 in one shard) 40 000 times without any announcement: every lookup must see its own key's definition; then 16 goroutines, each the only announcer of its own key, re-announce and decode 1500 times (read-your-own-announcement). Adversarial histories use key pairs with equal FNV-1-32 of address‖id (found by birthday search: same id on two exporters, different ids, IPv4/IPv6/mapped forms) and 20 structurally aliasing pairs (decimal concatenation without separator, addresses differing in one part only or with permuted octets, ids equal modulo 256 / xor 0x8000 / byte-swapped). distinct = (protocol, colliding, sizes, first datagram); non-trivial = at least one record expected")
 	run.Assume("the RPC() loop itself (multicast discovery) cannot run in this sandbox (no interface with flags == 19); IRPC.Get, RPCServer and RPCClient.Get are exercised")
 	run.Set("sub_claims_not_reached", []string{"peer-fetch client loop (ipfix.RPC): needs multicast discovery"})
 	run.Finish()
